@@ -21,6 +21,7 @@ for a in sys.argv[3:]:
     letters, d = a.split("=")
     for l in letters:
         first_of[l] = d
+NOT_MEASURED = set(os.environ.get("NOT_MEASURED", "").split())
 WAVE = {"A": 1, "B": 1, "C": 2, "D": 2, "E": 3, "F": 3, "G": 4, "H": 4}
 
 
@@ -52,9 +53,12 @@ for prop in sorted(os.listdir(seeds)):
             continue
         r1 = load(first_of.get(letter, ""), prop, letter)
         r2 = load(now, prop, letter)
-        if not r2 or not r2.get("valid_seed"):
+        gone = bool(r2 and r2.get("baseline_ok") and r2.get("demo_without_change_exit") == 0 and r2.get("demo_with_change_exit") == 0)
+        if not r2 or not (r2.get("valid_seed") or gone):
             print("skipping %s/%s (not confirmed on the current tree: %s)" % (prop, letter, (r2 or {}).get("error", "")[:60]), file=sys.stderr)
             continue
+        if "%s/%s" % (prop, letter) in NOT_MEASURED:
+            r1 = None
         out = os.path.join(VERIF, "seeded", "%s-%s" % (prop, letter))
         os.makedirs(out, exist_ok=True)
         shutil.copy(patch, os.path.join(out, "patch.diff"))
@@ -76,6 +80,9 @@ for prop in sorted(os.listdir(seeds)):
             "what": one_line(notes),
             "needs_to_manifest": "see notes.md",
             "rebased_on_current_tree": os.path.exists(patch + ".orig"),
+            "demo_adjusted": os.path.exists(os.path.join(pdir, letter + "_demo.py.orig")),
+            "still_manifests": not gone,
+            "replay_artefact": r2.get("replay"),
             "confirmed_in_scratch_worktree": {
                 "tree": "scratch worktree of /repo at its HEAD when evaluated",
                 "baseline_with_change": r2.get("baseline_with_change"),
@@ -96,7 +103,7 @@ print("| seed | wave | what the change does (first line of the sub-agent's notes
 print("|---|---|---|---|---|---|")
 for m in rows:
     f1 = {None: "not measured", True: "caught", False: "missed"}[m["own_check_when_the_wave_started"]]
-    f2 = "caught" if m["own_check_now"]["caught"] else "**missed**"
+    f2 = "caught" if m["own_check_now"]["caught"] else ("**missed**" if m["still_manifests"] else "n/a (no longer manifests)")
     cl = ""
     for x in m["own_check_now"]["first_lines"]:
         mm = re.search(r"clause=(\S+)", x)
@@ -104,5 +111,8 @@ for m in rows:
             cl = mm.group(1)
     print("| %s | %d | %s | %s | %s | %s |" % (m["seed"], m["wave"], m["what"], f1, f2, cl))
 n = len(rows)
-print("\n%d seeds; caught when their wave started: %d; caught now: %d" % (
-    n, sum(1 for m in rows if m["own_check_when_the_wave_started"]), sum(1 for m in rows if m["own_check_now"]["caught"])), file=sys.stderr)
+print("\n%d seeds; caught when their wave started: %d; caught now: %d; no longer manifest: %d; replay reproduces: %d" % (
+    n, sum(1 for m in rows if m["own_check_when_the_wave_started"]), sum(1 for m in rows if m["own_check_now"]["caught"]),
+    sum(1 for m in rows if not m["still_manifests"]),
+    sum(1 for m in rows if (m.get("replay_artefact") or {}).get("on_changed_tree_violations", 0) >= 1
+        and (m.get("replay_artefact") or {}).get("on_unchanged_tree_violations", 1) == 0)), file=sys.stderr)
